@@ -67,14 +67,16 @@ def run(c):
         arg = [float(x) for x in p]
     else:
         arg = a
-    r = guarded(lambda: [float(v) for v in adjust_p(arg, c["m"])])
+    res = guarded(lambda: adjust_p(arg, c["m"]))
+    aliased = res[0] == "ok" and isinstance(res[1], np.ndarray) and isinstance(arg, np.ndarray) and res[1].size > 0 and np.shares_memory(res[1], arg)
+    r = (res[0], [float(v) for v in res[1]]) if res[0] == "ok" else res
     unmod = bool((a == a0).all()) and [float(v) for v in arg] == [float(v) for v in a0]
     rs = np.random.RandomState(c["perm_seed"])
     perm = rs.permutation(len(p))
     r2 = guarded(lambda: [float(v) for v in adjust_p(a0[perm].copy(), c["m"])])
     # the sorting permutation numpy would use (oracle input of the model)
     ord_ = [int(i) for i in np.argsort(a0)]
-    return {"r": list(r), "unmodified": unmod, "perm": [int(i) for i in perm], "r_perm": list(r2), "ord": ord_}
+    return {"r": list(r), "aliased": bool(aliased), "unmodified": unmod, "perm": [int(i) for i in perm], "r_perm": list(r2), "ord": ord_}
 
 
 def oracle(c, o):
@@ -88,6 +90,8 @@ def oracle(c, o):
         return {"why": f"adjust_p raised {r}", "cls": "adjust_p:raises"}
     if not o["unmodified"]:
         return {"why": "adjust_p modified its input", "cls": "adjust_p:input-modified"}
+    if o.get("aliased"):
+        return {"why": f"adjust_p({c['p']}, {c['m']!r}) returned an array that shares memory with its input: editing the adjusted values edits the caller's p-values", "cls": "adjust_p:input-modified"}
     want = textbook(p, c["m"])
     got = r[1]
     if len(got) != len(want) or any(abs(Fraction(g) - w) > Fraction(1, 10**10) for g, w in zip(got, want)):
